@@ -10,8 +10,14 @@ package handshakecrypto
 //symgo:replace (*crypto/x509.Certificate).Verify zzHcCertVerify
 //symgo:replace crypto/x509.NewCertPool zzHcNewCertPool
 //symgo:replace (*crypto/x509.CertPool).AddCert zzHcAddCert
-//symgo:replace (github.com/pion/dtls/v3/pkg/crypto/hash.Algorithm).Digest zzHcDigest
-//symgo:stub the Go standard library is cut off at its API: x509.ParseCertificate returns (arbitrarily) an error or a harness certificate object whose public key type is enumerated; ed25519.Verify, ecdsa.Verify, rsa.VerifyPKCS1v15, rsa.VerifyPSS and (*x509.Certificate).Verify record their arguments and return an arbitrary verdict; asn1.Unmarshal yields an arbitrary ECDSA (r, s) pair or fails, and for the RSA-PSS OID check an arbitrary one of the two RSA key OIDs; x509.NewCertPool / AddCert record pool membership; (hash.Algorithm).Digest is an uninterpreted function
+//symgo:replace crypto/md5.Sum zzHcMD5
+//symgo:replace crypto/sha1.Sum zzHcSHA1
+//symgo:replace crypto/sha256.Sum224 zzHcSHA224
+//symgo:replace crypto/sha256.Sum256 zzHcSHA256
+//symgo:replace crypto/sha512.Sum384 zzHcSHA384
+//symgo:replace crypto/sha512.Sum512 zzHcSHA512
+//symgo:stub the Go standard library is cut off at its API: x509.ParseCertificate returns (arbitrarily) an error or a harness certificate object whose public key type is enumerated; ed25519.Verify, ecdsa.Verify, rsa.VerifyPKCS1v15, rsa.VerifyPSS and (*x509.Certificate).Verify record their arguments and return an arbitrary verdict; asn1.Unmarshal yields an arbitrary ECDSA (r, s) pair or fails, and for the RSA-PSS OID check an arbitrary one of the two RSA key OIDs; x509.NewCertPool / AddCert record pool membership; the six std hash functions behind (hash.Algorithm).Digest (md5.Sum, sha1.Sum, sha256.Sum224/Sum256, sha512.Sum384/Sum512) are uninterpreted functions of the right output size, so the real Digest code - including what it returns for hash None, Ed25519 and unknown values - is executed
+//symgo:assume zzHcSchemeFitsKey: a (hash, signature) pair whose signature is an RSA-PSS code point carries the hash of that code point - signaturehash.Algorithm.Unmarshal, the only decoder of the wire field, derives the hash from the code point
 //symgo:assume the Go standard library verifies signatures and certificate chains correctly (design: "all signature/x509 routines assumed correct in Go's std")
 //symgo:outside what x509 chain building accepts (expiry, name constraints, EKU evaluation): only the inputs handed to it are checked
 
@@ -75,8 +81,57 @@ const (
 	zzHcKeyOther   = 3
 )
 
+func zzHcMD5(b []byte) (out [16]byte)    { copy(out[:], zzsymUF("MD5", 16, b)); return out }
+func zzHcSHA1(b []byte) (out [20]byte)   { copy(out[:], zzsymUF("SHA1", 20, b)); return out }
+func zzHcSHA224(b []byte) (out [28]byte) { copy(out[:], zzsymUF("SHA224", 28, b)); return out }
+func zzHcSHA256(b []byte) (out [32]byte) { copy(out[:], zzsymUF("SHA256", 32, b)); return out }
+func zzHcSHA384(b []byte) (out [48]byte) { copy(out[:], zzsymUF("SHA384", 48, b)); return out }
+func zzHcSHA512(b []byte) (out [64]byte) { copy(out[:], zzsymUF("SHA512", 64, b)); return out }
+
+// zzHcDigest is the ORACLE: the IANA TLS HashAlgorithm registry (RFC 5246 7.4.1.4.1) - 1 md5, 2 sha1, 3 sha224,
+// 4 sha256, 5 sha384, 6 sha512; every other value (0 none, 8 Intrinsic/Ed25519, unassigned) names no hash
+// function and yields nil.
 func zzHcDigest(a hash.Algorithm, b []byte) []byte {
-	return zzsymUF("Digest", 4, []byte{byte(a >> 8), byte(a)}, b)
+	switch a {
+	case 1:
+		return zzsymUF("MD5", 16, b)
+	case 2:
+		return zzsymUF("SHA1", 20, b)
+	case 3:
+		return zzsymUF("SHA224", 28, b)
+	case 4:
+		return zzsymUF("SHA256", 32, b)
+	case 5:
+		return zzsymUF("SHA384", 48, b)
+	case 6:
+		return zzsymUF("SHA512", 64, b)
+	}
+
+	return nil
+}
+
+func zzHcIsPSS(s signature.Algorithm) bool {
+	return (s >= 0x0804 && s <= 0x0806) || (s >= 0x0809 && s <= 0x080b)
+}
+
+// zzHcCheckFit: a successful verification proves possession of the leaf key only if (1) the scheme the peer named
+// is one for the leaf's key type - Ed25519 key: ed25519 (hash 8 "Intrinsic", signature 7); ECDSA key: signature 3
+// with a real hash; RSA key: signature 1 with a real hash or an rsa_pss code point - and (2) what the ECDSA / RSA
+// primitive verified is the non-empty digest of the signed message under the hash the scheme names.
+func zzHcCheckFit(h hash.Algorithm, s signature.Algorithm, msg []byte) {
+	realHash := h >= 1 && h <= 6
+	if zzHc.keyKind == zzHcKeyECDSA || zzHc.keyKind == zzHcKeyRSA {
+		zzsymAssert(len(zzHc.primMsg) > 0, "hc_digest_never_empty")
+		zzsymAssert(zzsymEqBytes(zzHc.primMsg, zzHcDigest(h, msg)), "hc_digest_of_named_hash_over_message")
+	}
+	switch zzHc.keyKind {
+	case zzHcKeyEd25519:
+		zzsymAssert(s == signature.Ed25519 && h == hash.Ed25519, "hc_scheme_must_fit_leaf_key_type")
+	case zzHcKeyECDSA:
+		zzsymAssert(s == signature.ECDSA && realHash, "hc_scheme_must_fit_leaf_key_type")
+	case zzHcKeyRSA:
+		zzsymAssert((s == signature.RSA || zzHcIsPSS(s)) && realHash, "hc_scheme_must_fit_leaf_key_type")
+	}
 }
 
 func zzHcParseCertificate(der []byte) (*x509.Certificate, error) {
@@ -260,6 +315,8 @@ func zzHcVerifySignature() {
 			zzsymCover("refused_unparsable")
 		case zzHc.keyKind == zzHcKeyOther:
 			zzsymCover("refused_key_type")
+		case zzHc.primCalls == 0 && !zzHcFits(zzHc.keyKind, h, s):
+			zzsymCover("refused_scheme_mismatch")
 		case zzHc.primCalls == 1 && !zzHc.primOK:
 			zzsymCover("refused_invalid")
 		case zzHc.keyKind == zzHcKeyECDSA && zzHc.asn1R != nil && (zzHc.asn1R.Sign() <= 0 || zzHc.asn1S.Sign() <= 0):
@@ -275,6 +332,7 @@ func zzHcVerifySignature() {
 	zzsymAssert(zzsymEqBytes(zzHc.parsedDER[0], certs[0]), "hc_leaf_is_first_certificate")
 	zzsymAssert(!zzHc.parseFails, "hc_leaf_parsed")
 	zzsymAssert(zzsymAnd(zzHc.primCalls == 1, zzHc.primOK), "hc_signature_primitive_says_valid")
+	zzHcCheckFit(h, s, msg)
 	leaf := zzHc.parsed[0]
 	isPSS := scheme >= 3
 	if isPSS {
@@ -405,5 +463,85 @@ func zzHcVerifyChain() {
 		zzsymAssert(zzHc.verifyOpts.DNSName == "", "hc_client_no_dns_name")
 		zzsymAssert(len(zzHc.verifyOpts.KeyUsages) == 1 && zzHc.verifyOpts.KeyUsages[0] == x509.ExtKeyUsageClientAuth, "hc_client_key_usage")
 		zzsymCover("client_ok")
+	}
+}
+
+
+// zzHcFits: the oracle predicate of zzHcCheckFit as a plain function (concrete arguments).
+func zzHcFits(key int, h hash.Algorithm, s signature.Algorithm) bool {
+	realHash := h >= 1 && h <= 6
+	switch key {
+	case zzHcKeyEd25519:
+		return s == signature.Ed25519 && h == hash.Ed25519
+	case zzHcKeyECDSA:
+		return s == signature.ECDSA && realHash
+	case zzHcKeyRSA:
+		return (s == signature.RSA || zzHcIsPSS(s)) && realHash
+	}
+
+	return false
+}
+
+// handshakecrypto.VerifyKeySignature / VerifyCertificateVerify on a one-certificate list whose leaf key is
+// Ed25519, ECDSA or RSA, for EVERY (hash, signature) pair - both 16-bit values symbolic, so including 8/7
+// (ed25519), 0/x (hash none), unassigned values and the rsa_pss code points - an arbitrary 3-byte message and
+// 2-byte signature, std primitives cut off at their API. Proved: nil (signature accepted) is returned only if
+// the pair is a scheme for the leaf's key type [label hc_scheme_must_fit_leaf_key_type] and, for ECDSA and RSA
+// keys, the primitive was handed a non-empty digest [hc_digest_never_empty] equal to Hash_h(message) for the hash
+// function h names in the IANA registry. Counter-example this excludes: ECDSA leaf, scheme ed25519 (8, 7), for
+// which Digest returns nil and ecdsa.Verify on an empty digest accepts a signature anyone can compute from the
+// public key (r = (uQ).x, s = r/u).
+//
+//symgo:entry covers=ok_ed25519,ok_ecdsa,ok_rsa_pkcs1,ok_rsa_pss,refused_mismatch,refused_invalid
+func zzHcSchemeFitsKey() {
+	zzHc = zzHcRec{}
+	zzHc.keyKind = zzsymChoice("leaf_key", 3)
+	viaCV := zzsymChoice("certificate_verify", 2) == 1
+	h := hash.Algorithm(zzsymU16("hash_algorithm"))
+	s := signature.Algorithm(zzsymU16("signature_algorithm"))
+	pss := zzHcIsPSS(s)
+	if pss {
+		want := hash.SHA512
+		switch s {
+		case signature.RSA_PSS_RSAE_SHA256, signature.RSA_PSS_PSS_SHA256:
+			want = hash.SHA256
+		case signature.RSA_PSS_RSAE_SHA384, signature.RSA_PSS_PSS_SHA384:
+			want = hash.SHA384
+		}
+		zzsymAssume(h == want)
+	}
+	msg := zzsymBytes("message", 3)
+	sig := zzsymBytes("signature", 2)
+	certs := [][]byte{zzsymBytes("der", 2)}
+
+	var err error
+	if viaCV {
+		err = VerifyCertificateVerify(msg, h, s, sig, certs)
+	} else {
+		err = VerifyKeySignature(msg, sig, h, s, certs)
+	}
+	if err != nil {
+		if zzHc.primCalls == 1 && !zzHc.primOK {
+			zzsymCover("refused_invalid")
+		} else if !zzHc.parseFails && zzHc.primCalls == 0 && !zzHcFits(zzHc.keyKind, h, s) {
+			zzsymCover("refused_mismatch")
+		}
+
+		return
+	}
+	zzsymAssert(zzsymAnd(zzHc.primCalls == 1, zzHc.primOK), "hc_signature_primitive_says_valid")
+	zzHcCheckFit(h, s, msg)
+	switch {
+	case zzHc.keyKind == zzHcKeyEd25519:
+		zzsymAssert(zzsymEqBytes(zzHc.primMsg, msg), "hc_ed25519_over_message")
+		zzsymCover("ok_ed25519")
+	case zzHc.keyKind == zzHcKeyECDSA:
+		zzsymCover("ok_ecdsa")
+	case pss:
+		zzsymAssert(zzHc.primPSS, "hc_pss_iff_pss_scheme")
+		zzsymCover("ok_rsa_pss")
+	default:
+		zzsymAssert(!zzHc.primPSS, "hc_pss_iff_pss_scheme")
+		zzsymCover("ok_rsa_pkcs1")
 	}
 }
